@@ -87,6 +87,15 @@ def handleText : Handler := fun st op args =>
         let r := rtMove m
         if Notation.legalShape size m && r != "ok" then "MODEL-RT-FAIL " ++ r else r
       | _, _ => "bad-move")
+  -- the enumeration of the harness against the decidable predicate the theorems quantify over
+  | "shape", [sz, m] =>
+    some (st, match sz.toNat?, parseMove m with
+      | some size, some m => bit01 (Notation.legalShape size m)
+      | _, _ => "bad-move")
+  | "shapecount", [sz] =>
+    some (st, match sz.toNat? with
+      | some size => toString ((Spec.allShapes size).filter (Notation.legalShape size)).length
+      | none => "bad-op")
   | _, _ => none
 
 end Driver
